@@ -15,11 +15,12 @@ import (
 type value interface{}
 
 type Object struct {
-	id    int
-	cells []value
-	epoch int
-	tag   string
-	mon   int // monitor class (0 = none); writes to monitored objects are recorded
+	id      int
+	cells   []value
+	epoch   int
+	tag     string
+	mon     int     // monitor class (0 = none); writes to monitored objects are recorded
+	aliasOf *Object // codec stub: bytes derived from (possibly aliasing) that object
 }
 
 type Ptr struct {
